@@ -108,6 +108,9 @@ ORec == {Struct("Rec", <<Field("Next", "", {}, Ptr(RecT)), Field("V", "", {}, Pr
          Named("Rec", Array(Ptr(RecT), 2)), Named("Rec", Slice(RecT)), Named("Rec", MapOf(RecT)), Named("Rec", Slice(Ptr(RecT))),
          Named("Rec", Array(Ptr(Named("Rec", Array(Ptr([k |-> "rec", up |-> 2]), 3))), 1)),
          Ptr(Named("Rec", Array(Ptr(RecT), 1))),
+         \* ... nor through any container: defined POINTER types (type P *P; type P **P; type A *B, type B *A)
+         Named("Rec", Ptr(RecT)), Named("Rec", Ptr(Ptr(RecT))), Named("Rec", Ptr(Named("Rec", Ptr([k |-> "rec", up |-> 2])))),
+         Struct("S", <<Field("R", "", {}, Named("Rec", Ptr(RecT))), Field("V", "", {}, Prim("int8"))>>), Slice(Named("Rec", Ptr(RecT))),
          Struct("S", <<Field("R", "", {}, Named("Rec", Array(Ptr(RecT), 2))), Field("V", "", {}, Prim("int8"))>>)}
 \* a named type occurring several times is NOT a cycle
 OMany == {Struct("S", <<Field("A", "", {}, Inner), Field("B", "", {}, Inner), Field("C", "", {}, Slice(Inner)), Field("D", "", {}, Ptr(Inner))>>),
